@@ -1,12 +1,14 @@
 """Parallel version of tools/seedsweep.py: the recorded seeded changes are applied to scratch worktrees of /repo (one per worker, under /tmp,
 removed afterwards) and the property's quick check is run against that worktree (DADI_REPO), so /repo itself is never touched.  All seeds of one
 property go to the same worker (evidence/<id>.json and out/replay/<id>/ are per property).
-Usage: tools/seedsweep_par.py [--workers=N] [ids...]      (restores evidence/ and out/replay afterwards)"""
+Usage: tools/seedsweep_par.py [--workers=N] [--corpus=seeded|benign] [ids...]      (restores evidence/ and out/replay afterwards)
+With --corpus=benign the behaviour-preserving refactors of /verif/benign are applied instead and every check must exit 0 without a VIOLATION line."""
 import sys, os, subprocess, json, time, shutil, threading
 args = [a for a in sys.argv[1:] if not a.startswith('--')]
 opts = dict(a[2:].split('=') for a in sys.argv[1:] if a.startswith('--') and '=' in a)
 NW = int(opts.get('workers', 4))
-ids = args or sorted(os.listdir('/verif/seeded'))
+CORPUS = opts.get('corpus', 'seeded')
+ids = args or sorted(os.listdir('/verif/' + CORPUS))
 COST = dict(C02=95, C03=60, C04=45, C05=70, C01=30, C19=35, C07=10, C09=25, C16=15, C15=20, C17=25)
 
 
@@ -42,7 +44,7 @@ def worker(k):
     try:
         for p in buckets[k]:
             for sid in groups[p]:
-                sd = '/verif/seeded/' + sid
+                sd = '/verif/%s/%s' % (CORPUS, sid)
                 ap = run('git -C %s apply %s/patch.diff' % (d, sd))
                 if ap.returncode != 0:
                     with lock:
@@ -56,9 +58,12 @@ def worker(k):
                     proof = [l.split('obligation=')[1][:110] for l in v if '/bounded/' not in l]
                     bnd = [l.split('obligation=')[1][:80] for l in v if '/bounded/' in l]
                     res = dict(exit=c.returncode, proof=proof[:4], n_proof=len(proof), bounded=bnd[:3], n_bounded=len(bnd), wall=round(time.time() - t0))
-                    m = json.load(open(sd + '/meta.json'))
-                    m['detected_by'] = dict(exit=c.returncode, proof_obligations=proof[:6], bounded_drivers=bnd[:6])
-                    json.dump(m, open(sd + '/meta.json', 'w'), indent=1)
+                    if CORPUS == 'seeded':
+                        m = json.load(open(sd + '/meta.json'))
+                        m['detected_by'] = dict(exit=c.returncode, proof_obligations=proof[:6], bounded_drivers=bnd[:6])
+                        json.dump(m, open(sd + '/meta.json', 'w'), indent=1)
+                    else:
+                        res['other'] = [l[:200] for l in c.stdout.split('\n') if l.startswith(('UNDECIDED', 'CHECKER-FAULT'))][:4]
                 except subprocess.TimeoutExpired:
                     res = 'check timed out'
                 finally:
@@ -78,7 +83,10 @@ for t in ths:
     t.join()
 run('git -C /repo worktree prune')
 run('cd /verif && git checkout -- evidence out/replay; git clean -fdq out/replay')
-missed = [s for s in ids if not isinstance(summary.get(s), dict) or summary[s]['exit'] != 1]
-noproof = [s for s in ids if isinstance(summary.get(s), dict) and summary[s]['exit'] == 1 and summary[s]['n_proof'] == 0]
-print('MISSED:', missed)
-print('BOUNDED-ONLY:', noproof)
+if CORPUS == 'seeded':
+    missed = [s for s in ids if not isinstance(summary.get(s), dict) or summary[s]['exit'] != 1]
+    noproof = [s for s in ids if isinstance(summary.get(s), dict) and summary[s]['exit'] == 1 and summary[s]['n_proof'] == 0]
+    print('MISSED:', missed)
+    print('BOUNDED-ONLY:', noproof)
+else:
+    print('NOT OK:', [s for s in ids if not isinstance(summary.get(s), dict) or summary[s]['exit'] != 0 or summary[s]['n_proof'] or summary[s]['n_bounded']])
